@@ -109,8 +109,73 @@ def impl_expand_shared(c):
     return out
 
 
-def engine_roles(c, flavour, cache=False):
-    """roles as conditions and the audit sink see them through Guard."""
+def _prior_policy(kind, universe):
+    """a policy the Guard held before the roles-testing one was installed (Guards 'with a past')"""
+    if kind == "empty":
+        return {"algorithm": "deny-overrides", "rules": []}
+    if kind == "noroles":          # decides on other attributes only
+        return {"algorithm": "permit-overrides", "rules": [
+            {"id": "p0", "effect": "permit", "actions": ["a0", "boot"], "resource": {"type": "doc"},
+             "condition": {"==": [{"attr": "subject.id"}, "nobody"]}}]}
+    if kind == "noroles-set":      # a policy set, still no mention of roles
+        return {"algorithm": "deny-overrides", "policies": [
+            {"id": "ps0", "algorithm": "deny-overrides", "rules": [
+                {"id": "p0", "effect": "deny", "actions": ["boot"], "resource": {"type": "doc"}}]}]}
+    if kind == "otherroles":       # tests the roles too, but differently
+        return {"algorithm": "deny-overrides", "rules": [
+            {"id": "p0", "effect": "permit", "actions": ["boot"], "resource": {"type": "doc"},
+             "condition": {"hasAny": [{"attr": "subject.roles"}, ["!no-such-role"]]}}]}
+    raise ValueError("unknown prior policy kind " + repr(kind))
+
+
+PRIOR_KINDS = ("empty", "noroles", "noroles-set", "otherroles")
+PAST_HOWS = ("set_policy", "update_policy", "reload")
+
+
+def _install(g, how, pol):
+    """replace the Guard's policy the way an application would"""
+    if how == "set_policy":
+        g.set_policy(pol)
+    elif how == "update_policy":
+        g.update_policy(pol)
+    elif how == "reload":           # hot reload from a source whose content changed
+        from rbacx.policy.loader import HotReloader
+
+        class Src:
+            def etag(self):
+                return "v2"
+
+            def load(self):
+                return pol
+
+        if not HotReloader(g, Src(), initial_load=True, poll_interval=None).check_and_reload():
+            raise RuntimeError("C18 harness: hot reload did not apply the policy")
+    else:
+        raise ValueError("unknown way to install a policy " + repr(how))
+
+
+def _roles_policy(universe):
+    ref = {"attr": "subject.roles"}
+    # membership of one role, through each of the four operators of the property text in turn
+    # (theorems c18_has_any / c18_has_all / c18_contains / c18_in: all four decide `r in roles`)
+    forms = [lambda r: {"hasAny": [ref, [r]]}, lambda r: {"hasAll": [ref, [r]]},
+             lambda r: {"contains": [ref, r]}, lambda r: {"in": [r, ref]}]
+    rules = [{"id": f"r{i}", "effect": "permit", "actions": [f"a{i}"], "resource": {"type": "doc"},
+              "condition": forms[(i + len(universe)) % 4](r)} for i, r in enumerate(universe)]
+    return {"algorithm": "deny-overrides", "rules": rules}
+
+
+def _universe(graph, rolelists):
+    return sorted(set(graph) | {p for ps in graph.values() for p in ps} | {r for rl in rolelists for r in (rl or [])})
+
+
+def engine_roles(c, flavour, cache=False, sink=True, past=None):
+    """roles as conditions and the audit sink see them through Guard.
+
+    sink=False: no logger sink configured (roles observable through decisions only).
+    past={"how": set_policy|update_policy|reload, "prior": [kinds...], "eval_before": bool}: the Guard is constructed
+    with another policy (then possibly further ones), evaluates under it or not, and only then gets the roles-testing
+    policy installed."""
     from rbacx.core.engine import Guard
     from rbacx.core.model import Action, Context, Resource, Subject
     from rbacx.core.roles import StaticRoleResolver
@@ -163,16 +228,9 @@ def engine_roles(c, flavour, cache=False):
         def log(self, payload):
             self.payloads.append(payload)
 
-    universe = sorted(set(c["graph"]) | {p for ps in c["graph"].values() for p in ps} | set(c["roles"] or []))
-    ref = {"attr": "subject.roles"}
-    # membership of one role, through each of the four operators of the property text in turn
-    # (theorems c18_has_any / c18_has_all / c18_contains / c18_in: all four decide `r in roles`)
-    forms = [lambda r: {"hasAny": [ref, [r]]}, lambda r: {"hasAll": [ref, [r]]},
-             lambda r: {"contains": [ref, r]}, lambda r: {"in": [r, ref]}]
-    rules = [{"id": f"r{i}", "effect": "permit", "actions": [f"a{i}"], "resource": {"type": "doc"},
-              "condition": forms[(i + len(universe)) % 4](r)} for i, r in enumerate(universe)]
-    pol = {"algorithm": "deny-overrides", "rules": rules}
-    sink = Sink()
+    universe = _universe(c["graph"], [c["roles"]])
+    pol = _roles_policy(universe)
+    sink = Sink() if sink else None
     res = {"sync": SyncR, "async": AsyncR, "raising": RaisingR, "raising-async": AsyncRaisingR,
            "raising-awaitable": DefRaisingAwaitableR, "def-coroutine": DefCoroutineR,
            "custom-awaitable": CustomAwaitableR}[flavour]()
@@ -180,9 +238,22 @@ def engine_roles(c, flavour, cache=False):
     if cache:
         from rbacx.core.cache import DefaultInMemoryCache
         kw["cache"] = DefaultInMemoryCache(256)
-    g = Guard(pol, role_resolver=res, logger_sink=sink, **kw)
     subj = Subject(id="u", roles=list(c["roles"] or []))
     seen = []
+    if past:
+        priors = list(past.get("prior") or ["empty"])
+        g = Guard(_prior_policy(priors[0], universe), role_resolver=res, logger_sink=sink, **kw)
+        try:
+            for k in priors[1:]:
+                _install(g, past["how"], _prior_policy(k, universe))
+            if past.get("eval_before"):
+                # (its audit payload stays in the sink: the resolver is configured, so it carries expanded roles too)
+                g.evaluate_sync(subj, Action("boot"), Resource(type="doc", id="1"), Context({}))
+            _install(g, past["how"], pol)
+        except Exception as e:  # noqa: BLE001
+            seen.append("!install-raised:" + type(e).__name__)
+    else:
+        g = Guard(pol, role_resolver=res, logger_sink=sink, **kw)
 
     async def go():
         for rnd in range(2 if cache else 1):       # with a cache: every request again (served from the cache)
@@ -197,13 +268,364 @@ def engine_roles(c, flavour, cache=False):
         asyncio.run(go())
     except Exception as e:  # noqa: BLE001  (an evaluation that raises is reported through `seen`)
         seen.append("!evaluation-raised:" + type(e).__name__)
-    audit = [p["env"]["subject"]["roles"] for p in sink.payloads]
+    audit = [p["env"]["subject"]["roles"] for p in sink.payloads] if sink is not None else []
     return sorted(seen), audit, universe
 
 
+# ---------------------------------------------------------------------------------------------------------------
+# overlapping evaluations on one Guard: a resolver that suspends at a gate the harness controls
+# ---------------------------------------------------------------------------------------------------------------
+
+WATCHDOG = 60.0     # seconds; running into it is harness trouble (or a hang, which is C14's), never a verdict
+PARK_WAIT = 3.0     # how long the controller waits for an evaluation to arrive at the gate (or to finish) before going on
+GRACE = 0.5         # how long the controller waits for an evaluation that was not asked to park before going on;
+                    # only shapes the schedule — the judgement holds for every schedule
+
+
+class _Gate:
+    """Parks resolver calls until the controller releases them.  No sleeps: a parked async call awaits a future of
+    its own loop (set through call_soon_threadsafe), a parked sync call blocks on a threading.Event."""
+
+    def __init__(self):
+        import threading
+        self.cv = threading.Condition()
+        self.park_next = 0       # this many of the next calls park
+        self.parked = []         # release callables in order of arrival (None once released)
+        self.entered = 0
+        self.open = False        # once open, nobody parks any more
+
+    def _take(self):
+        # under self.cv
+        if self.open or self.park_next <= 0:
+            return False
+        self.park_next -= 1
+        return True
+
+    async def pass_async(self):
+        with self.cv:
+            if not self._take():
+                return
+            loop = asyncio.get_running_loop()
+            fut = loop.create_future()
+
+            def rel():
+                try:
+                    loop.call_soon_threadsafe(lambda: fut.done() or fut.set_result(None))
+                except RuntimeError:      # loop already closed: nothing is waiting any more
+                    pass
+            self.parked.append(rel)
+            self.entered += 1
+            self.cv.notify_all()
+        await fut
+
+    def pass_sync(self):
+        import threading
+        with self.cv:
+            if not self._take():
+                return
+            ev = threading.Event()
+            self.parked.append(ev.set)
+            self.entered += 1
+            self.cv.notify_all()
+        ev.wait(WATCHDOG)
+
+    def release(self, which):
+        with self.cv:
+            idx = [i for i, r in enumerate(self.parked) if r is not None]
+            if not idx:
+                return
+            i = idx[0] if which == "first" else idx[-1]
+            rel, self.parked[i] = self.parked[i], None
+        rel()
+
+    def release_all(self):
+        with self.cv:
+            self.open = True
+            rels, self.parked = [r for r in self.parked if r is not None], [None] * len(self.parked)
+        for rel in rels:
+            rel()
+
+
+OVERLAP_FLAVOURS = ("async", "def-coroutine", "custom-awaitable", "raising-async", "sync")
+
+
+def run_overlap(c):
+    """One Guard, several evaluations that overlap inside the resolver.  c: {"graph", "flavour", "cache", "sink",
+    "evals": [{"roles", "via": thread|loop|loop-sync, "park": bool, "probe": role, "release_after": [first|last...]}]}.
+    Returns {"results": [{"allowed"| "error"}...], "audit": {subject id: [roles...]}, "trouble": str|None}."""
+    import threading
+    from rbacx.core.engine import Guard
+    from rbacx.core.model import Action, Context, Resource, Subject
+    from rbacx.core.roles import StaticRoleResolver
+
+    base = StaticRoleResolver(c["graph"])
+    gate = _Gate()
+    flavour = c["flavour"]
+
+    class AsyncR:
+        async def expand(self, roles):
+            await gate.pass_async()
+            if flavour == "raising-async":
+                raise RuntimeError("resolver down (awaited)")
+            return base.expand(roles)
+
+    class DefCoroutineR:
+        def expand(self, roles):
+            return AsyncR().expand(roles)
+
+    class _Later:
+        def __init__(self, roles):
+            self.roles = roles
+
+        def __await__(self):
+            return AsyncR().expand(self.roles).__await__()
+
+    class CustomAwaitableR:
+        def expand(self, roles):
+            return _Later(roles)
+
+    class SyncR:                               # blocks its thread at the gate (driven from threads only)
+        def expand(self, roles):
+            gate.pass_sync()
+            return base.expand(roles)
+
+    class Sink:
+        def __init__(self):
+            self.payloads = []
+
+        def log(self, payload):
+            self.payloads.append(payload)
+
+    res = {"async": AsyncR, "raising-async": AsyncR, "def-coroutine": DefCoroutineR,
+           "custom-awaitable": CustomAwaitableR, "sync": SyncR}[flavour]()
+    evals = c["evals"]
+    universe = _universe(c["graph"], [e["roles"] for e in evals] + [[e["probe"]] for e in evals])
+    sink = Sink() if c.get("sink", True) else None
+    kw = {}
+    if c.get("cache"):
+        from rbacx.core.cache import DefaultInMemoryCache
+        kw["cache"] = DefaultInMemoryCache(256)
+    g = Guard(_roles_policy(universe), role_resolver=res, logger_sink=sink, **kw)
+
+    n = len(evals)
+    results = [None] * n
+    done = [False] * n
+
+    def finish(i, value):
+        with gate.cv:
+            results[i] = value
+            done[i] = True
+            gate.cv.notify_all()
+
+    def request(i):
+        e = evals[i]
+        return (Subject(id=f"u{i}", roles=list(e["roles"] or [])), Action("a%d" % universe.index(e["probe"])),
+                Resource(type="doc", id="1"), Context({}))
+
+    # the shared loop ("one running loop"): asyncio.run in a thread of its own, parked on a future until the end
+    box, ready = {}, threading.Event()
+
+    async def loop_main():
+        box["loop"] = asyncio.get_running_loop()
+        box["stop"] = box["loop"].create_future()
+        ready.set()
+        await box["stop"]
+
+    loop_thread = None
+    if any(e["via"] != "thread" for e in evals):
+        loop_thread = threading.Thread(target=lambda: asyncio.run(loop_main()), daemon=True)
+        loop_thread.start()
+        if not ready.wait(WATCHDOG):
+            return {"results": [], "audit": {}, "trouble": "the shared event loop did not start"}
+
+    threads = []
+
+    def start(i):
+        via = evals[i]["via"]
+        if via == "thread":                              # evaluate_sync in a thread of its own
+            def body():
+                try:
+                    finish(i, {"allowed": bool(g.evaluate_sync(*request(i)).allowed)})
+                except BaseException as ex:  # noqa: BLE001
+                    finish(i, {"error": type(ex).__name__})
+            t = threading.Thread(target=body, daemon=True)
+            threads.append(t)
+            t.start()
+            return
+
+        async def body_async():
+            try:
+                if via == "loop":                        # evaluate_async, a task of the shared loop
+                    d = await g.evaluate_async(*request(i))
+                else:                                    # "loop-sync": evaluate_sync called from inside the running loop
+                    d = g.evaluate_sync(*request(i))
+                finish(i, {"allowed": bool(d.allowed)})
+            except BaseException as ex:  # noqa: BLE001
+                finish(i, {"error": type(ex).__name__})
+        asyncio.run_coroutine_threadsafe(body_async(), box["loop"])
+
+    trouble, pending = None, 0
+    try:
+        for i, e in enumerate(evals):
+            with gate.cv:
+                before = gate.entered
+                if e.get("park"):
+                    gate.park_next += 1
+            start(i)
+            with gate.cv:
+                if e.get("park"):
+                    # parked in the resolver, or finished without getting there, or (an engine that makes it wait
+                    # for an evaluation already parked) neither: go on, the gates are all opened at the end
+                    if not gate.cv.wait_for(lambda: gate.entered > before or done[i], PARK_WAIT):
+                        pending += 1
+                    elif done[i] and gate.entered == before:
+                        gate.park_next = 0
+                elif not gate.cv.wait_for(lambda: done[i], GRACE):
+                    pending += 1
+            for which in e.get("release_after") or []:
+                gate.release(which)
+    finally:
+        gate.release_all()
+        with gate.cv:
+            if not gate.cv.wait_for(lambda: all(done), WATCHDOG):
+                trouble = f"evaluations {[i for i in range(n) if not done[i]]} did not finish within {WATCHDOG} s after every gate was opened"
+        if loop_thread is not None:
+            try:
+                box["loop"].call_soon_threadsafe(lambda: box["stop"].done() or box["stop"].set_result(None))
+            except RuntimeError:
+                pass
+            loop_thread.join(5.0 if trouble else WATCHDOG)
+        for t in threads:
+            t.join(0.0 if trouble else WATCHDOG)
+    audit = {}
+    if sink is not None:
+        for p in list(sink.payloads):
+            audit.setdefault(p["env"]["subject"]["id"], []).append(p["env"]["subject"]["roles"])
+    return {"results": list(results), "audit": audit, "trouble": trouble, "pending": pending}
+
+
+def gen_overlap(chk, bases, n):
+    """n scenarios over (graph, roles) pairs taken from the generated cases"""
+    rng = chk.rng
+    out = []
+    if not bases:
+        return out
+    for k in range(n):
+        b = bases[rng.randrange(len(bases))] if k >= len(bases) else bases[k]
+        graph, roles = b["graph"], list(b["roles"] or [])
+        nodes = sorted(set(graph) | {p for ps in graph.values() for p in ps} | set(roles)) or ["x"]
+        flavour = rng.choice(["async", "async", "async", "def-coroutine", "custom-awaitable", "raising-async", "sync"])
+        shape = "threads" if flavour == "sync" else rng.choice(["threads", "loop", "sync-in-loop", "mixed"])
+        ne = rng.choice([2, 2, 3, 4])
+        evals = []
+        for i in range(ne):
+            u = rng.random()
+            if i == 0 or u < 0.55:
+                rl = list(roles)                         # the same role list
+            elif u < 0.7:
+                rl = list(reversed(roles))               # same set, another order
+            else:
+                rl = [rng.choice(nodes) for _ in range(rng.choice([0, 1, 1, 2, 3]))]
+            if shape == "threads":
+                via = "thread"
+            elif shape == "loop":
+                via = "loop"
+            elif shape == "sync-in-loop":
+                via = "loop" if i == 0 else rng.choice(["loop-sync", "loop-sync", "loop"])
+            else:
+                via = rng.choice(["thread", "loop", "loop-sync"])
+            # an evaluate_sync inside the running loop blocks that loop: it is never asked to park
+            park = via != "loop-sync" and (i == 0 or rng.random() < 0.5)
+            rel = [rng.choice(["first", "last"])] if rng.random() < 0.25 else []
+            evals.append({"roles": rl, "via": via, "park": park, "release_after": rel, "probe": None})
+        out.append({"overlap": True, "graph": graph, "flavour": flavour, "shape": shape,
+                    "cache": rng.random() < 0.25, "sink": rng.random() < 0.8, "evals": evals})
+    # probes: a role the expansion adds (where a fall-back to the own roles shows), else any role of the universe
+    flat = [{"graph": s["graph"], "roles": e["roles"]} for s in out for e in s["evals"]]
+    ms = iter(_model_expand(flat))
+    for s in out:
+        for e in s["evals"]:
+            m = next(ms)
+            uni = _universe(s["graph"], [x["roles"] for x in s["evals"]]) or ["x"]
+            added = [r for r in m if r not in e["roles"]]
+            e["probe"] = rng.choice(added) if added and rng.random() < 0.7 else rng.choice(uni)
+    return out
+
+
+def check_overlap(chk, scen):
+    flat = [{"graph": s["graph"], "roles": e["roles"]} for s in scen for e in s["evals"]]
+    ms = iter(_model_expand(flat))
+    for s in scen:
+        exp = [next(ms) for _ in s["evals"]]
+        r = run_overlap(s)
+        chk.count("overlap:" + s.get("shape", "?"))
+        chk.count("overlap-flavour:" + s["flavour"])
+        if r.get("pending"):
+            chk.count("overlap:went-on-before-an-evaluation-parked-or-finished", r["pending"])
+        if r["trouble"]:
+            # not a verdict: a hang is C14's to judge, a slow machine nobody's
+            chk.count("overlap:harness-timeout")
+            chk.notes.append("C18 overlap scenario not judged (harness trouble): " + r["trouble"])
+            continue
+        same = len({tuple(e["roles"]) for e in s["evals"]}) < len(s["evals"])
+        what = (f"{s['flavour']} resolver suspended at a gate, {len(s['evals'])} overlapping evaluations on one Guard "
+                f"via {'/'.join(e['via'] for e in s['evals'])}, {'equal' if same else 'different'} role lists")
+        for i, (e, m) in enumerate(zip(s["evals"], exp)):
+            expect = m if not s["flavour"].startswith("raising") else list(e["roles"])
+            chk.mark(("overlap", s["flavour"], repr(s["graph"]), repr([(x["roles"], x["via"], x["park"]) for x in s["evals"]]), i),
+                     any(s["graph"].get(x) for x in e["roles"]))
+            want = {"allowed": e["probe"] in expect}
+            if r["results"][i] != want:
+                chk.violation(f"conditions do not see exactly the expanded roles (evaluation {i}; {what}; theorems "
+                              "c18_engine_roles/c18_has_any/c18_has_all/c18_contains/c18_in)",
+                              s, impl=r["results"], model=[{"allowed": x["probe"] in (mm if not s["flavour"].startswith("raising") else x["roles"])}
+                                                           for x, mm in zip(s["evals"], exp)])
+                break
+            got = r["audit"].get(f"u{i}", [])
+            if any(a != expect for a in got):
+                chk.violation(f"audit payload roles differ from the expanded roles (evaluation {i}; {what}; theorem c18_audit_roles)",
+                              s, impl=got[:2], model=expect)
+                break
+
+
+ENGINE_STD = (("sync", False), ("async", False), ("raising", False), ("sync", True), ("async", True),
+              ("raising-async", False), ("raising-awaitable", False), ("def-coroutine", False), ("custom-awaitable", False),
+              ("raising-async", True))
+ENGINE_FLAVOURS = ("sync", "async", "raising", "raising-async", "raising-awaitable", "def-coroutine", "custom-awaitable")
+
+
+def _extra_cfgs(rng, quick, idx):
+    """Guard configurations beyond the standard ten: no logger sink; Guards with a past (constructed with another
+    policy, the roles-testing one installed later through set_policy / update_policy / a hot reload); both.
+    quick: one per case in turn (both, no sink, both, past); thorough: each of the three twice."""
+    def past():
+        return {"how": rng.choice(PAST_HOWS), "prior": [rng.choice(PRIOR_KINDS) for _ in range(rng.choice([1, 1, 2]))],
+                "eval_before": rng.random() < 0.5}
+    shapes = [[(False, True), (False, False), (False, True), (True, True)][idx % 4]] if quick else [(False, True), (False, False), (True, True)] * 2
+    return [{"flavour": rng.choice(("sync", "sync", "async", "async") + ENGINE_FLAVOURS),
+             "cache": rng.random() < 0.25, "sink": sink, "past": past() if p else None} for sink, p in shapes]
+
+
+def _cfg_text(cfg):
+    t = cfg["flavour"] + " resolver"
+    if cfg.get("cache"):
+        t += ", decision cache on, every request twice"
+    if not cfg.get("sink", True):
+        t += ", no logger sink"
+    if cfg.get("past"):
+        p = cfg["past"]
+        t += (f", Guard constructed with policy {'+'.join(p['prior'])}" + (", evaluated" if p.get("eval_before") else "")
+              + f", roles policy installed by {p['how']}")
+    return t
+
+
 def check_cases(chk, cases, replay=False):
+    scen = [c for c in cases if c.get("overlap")]
+    cases = [c for c in cases if not c.get("overlap")]
     model = _model_expand(cases)
     for c, m in zip(cases, model):
+        if c.get("cfg"):           # replay of an engine-side failure under one Guard configuration: engine part only
+            continue
         out = impl_expand(c)
         nontriv = bool(c["roles"]) and any(c["graph"].get(r) for r in (c["roles"] or []))
         chk.mark(("expand", repr(c["graph"]), repr(c["roles"])), nontriv)
@@ -225,23 +647,40 @@ def check_cases(chk, cases, replay=False):
     if replay:
         sub = [c for c in cases if c.get("engine")]
     msub = _model_expand(sub)
-    for c, m in zip(sub, msub):
-        for flavour, cache in (("sync", False), ("async", False), ("raising", False), ("sync", True), ("async", True),
-                               ("raising-async", False), ("raising-awaitable", False), ("def-coroutine", False), ("custom-awaitable", False),
-                               ("raising-async", True)):
-            seen, audit, universe = engine_roles(c, flavour, cache)
+    for ci, (c, m) in enumerate(zip(sub, msub)):
+        if c.get("cfg"):
+            cfgs = [c["cfg"]]
+        else:
+            cfgs = [{"flavour": f, "cache": k, "sink": True, "past": None} for f, k in ENGINE_STD]
+            if not replay:
+                cfgs += _extra_cfgs(chk.rng, chk.tier == "quick", ci)
+        for cfg in cfgs:
+            flavour, cache = cfg["flavour"], bool(cfg.get("cache"))
+            seen, audit, universe = engine_roles(c, flavour, cache, sink=cfg.get("sink", True), past=cfg.get("past"))
             own = list(c["roles"] or [])
             expect = m if not flavour.startswith("raising") else own
-            chk.mark(("engine", flavour, repr(c["graph"]), repr(c["roles"])), bool(universe))
-            chk.count("engine:" + flavour + ("+cache" if cache else ""))
-            flavour = flavour + (" resolver, decision cache on, every request twice" if cache else "")
+            std = cfg.get("sink", True) and not cfg.get("past")
+            chk.mark(("engine", flavour if std else _cfg_text(cfg), repr(c["graph"]), repr(c["roles"])), bool(universe))
+            if std:
+                chk.count("engine:" + flavour + ("+cache" if cache else ""))
+            else:
+                chk.count("engine-extra:" + ("sink" if cfg.get("sink", True) else "nosink")
+                          + ("+past:" + cfg["past"]["how"] if cfg.get("past") else ""))
+                chk.count("engine-extra-flavour:" + flavour + ("+cache" if cache else ""))
+            desc = (flavour + (" resolver, decision cache on, every request twice" if cache else "") + " resolver") if std else _cfg_text(cfg)
+            fail = {**c, "engine": True} if std else {**{k: v for k, v in c.items() if not k.startswith("_")}, "engine": True, "cfg": cfg}
             want_seen = sorted(set(expect) & set(universe))
             if seen != want_seen:
-                chk.violation(f"conditions do not see exactly the expanded roles ({flavour} resolver; theorems c18_engine_roles/c18_has_any/c18_has_all/c18_contains/c18_in)",
-                              {**c, "engine": True}, impl=seen, model=want_seen)
+                chk.violation(f"conditions do not see exactly the expanded roles ({desc}; theorems c18_engine_roles/c18_has_any/c18_has_all/c18_contains/c18_in)",
+                              fail, impl=seen, model=want_seen)
             if any(a != expect for a in audit):
-                chk.violation(f"audit payload roles differ from the expanded roles ({flavour} resolver; theorem c18_audit_roles)",
-                              {**c, "engine": True}, impl=audit[:2], model=expect)
+                chk.violation(f"audit payload roles differ from the expanded roles ({desc}; theorem c18_audit_roles)",
+                              fail, impl=audit[:2], model=expect)
+    # overlapping evaluations on one Guard (resolver suspended at a gate)
+    if not replay:
+        nontriv = [c for c in sub if c["roles"] and any(c["graph"].get(r) for r in c["roles"])]
+        scen = scen + gen_overlap(chk, nontriv + sub, 120 if chk.tier == "quick" else 2500)
+    check_overlap(chk, scen)
 
 
 def run(chk):
